@@ -110,7 +110,9 @@ LeafPaths(v, art) == {FullPath(r, art) : r \in Present(v, art)}
 \* representative alterations per encoding; rewrites touch no value
 BytesTy == {"hex", "b64", "hexstr", "addr"}
 KindsOf(r) ==
-  (CASE r.ty \in BytesTy -> {"flip", "zero", "trunc", "ext0", "ext1", "empty"}
+  \* (a bit of the first / middle / LAST byte as well as of a seeded one: encodings have structure at their ends - a
+  \* recovery id, a length, a checksum)
+  (CASE r.ty \in BytesTy -> {"flip", "zero", "trunc", "ext0", "ext1", "empty", "flip_first", "flip_mid", "flip_last"}
      [] r.ty = "str"     -> {"flip", "trunc", "ext", "empty"}
      [] r.ty = "ver"     -> {"flip", "ver"}
      [] r.ty \in {"num", "numstr"} -> {"incr", "zero"}
